@@ -77,6 +77,8 @@ func runC02(c *an.Ctx) {
 	g := analyseGuarded(c)
 	reportGuarded(c, "R02.4", g, func(s string) bool { return s == "pkg/resource.Value" || s == "pkg/resource.Collection" })
 	r025(c)
+	r026(c, "R02.6")
+	c.Min("R02.6", 2)
 	c.Min("R02.1", 5)
 	c.Min("R02.2", 2)
 	c.Min("R02.3", 4)
@@ -313,6 +315,96 @@ func r022(c *an.Ctx) {
 	}
 	if n == 0 {
 		c.Unk(rule, "callers of GetAndUpdate", gau.Pos(), "no call site of GetAndUpdate found")
+	}
+	r022rows(c, rule)
+}
+
+// r022rows: in the read callback of Collection.Update, whenever the lookup
+// on this path says the id exists, a successful return hands back the stored
+// body (never a cached / provisional message): otherwise the re-validation
+// under the write lock cannot see that somebody else created the item.
+func r022rows(c *an.Ctx, rule string) {
+	upd := c.Prog.Func(resPkg, "Collection", "Update")
+	gau := c.Prog.Func(resPkg, "", "GetAndUpdate")
+	if upd == nil || gau == nil {
+		return
+	}
+	var gf *ssa.Function
+	for _, call := range an.CallsTo(upd, gauName) {
+		for i, p := range gau.Params {
+			if strings.HasSuffix(an.NamedTypeName(p.Type()), "/pkg/resource.GetFn") {
+				gf = an.ClosureFn(call.Common().Args[i])
+			}
+		}
+	}
+	if gf == nil {
+		return
+	}
+	leaves := an.DecisionTree(gf, an.DTConfig{})
+	bad := ""
+	n := 0
+	var pos token.Pos
+	for _, l := range leaves {
+		if l.Undec != "" || l.Panics || len(l.Returns) != 2 {
+			continue
+		}
+		exists := ""
+		for a, v := range l.AssignM {
+			if strings.Contains(a, ".byId[") && strings.HasSuffix(a, "#1") {
+				exists = v
+			}
+		}
+		if exists != "true" || l.Returns[1].K != "nil" {
+			continue
+		}
+		n++
+		if !strings.Contains(l.Returns[0].S, ".byId[") {
+			bad = "with the id present in byId the callback returns " + l.Returns[0].S + " successfully instead of the stored body"
+			pos = l.RetPos
+		}
+	}
+	cons := "(*pkg/resource.Collection).Update|GetFn returns the stored body whenever the id exists"
+	if n == 0 {
+		c.Unk(rule, cons, gf.Pos(), "no successful path with an existing id found")
+		return
+	}
+	if bad != "" {
+		c.Bad(rule, cons, pos, bad+": a concurrent creator of the same id goes unnoticed by the re-validation and is overwritten")
+	} else {
+		c.Ok(rule, cons, gf.Pos(), fmt.Sprintf("%d path(s)", n))
+	}
+}
+
+// r026: stored items are immutable: fields of resource.item are written only
+// while the item is being constructed (fresh allocation). Delete's
+// pointer-identity re-check and the lock-free use of copied items both rely
+// on "a new version is a new *item".
+func r026(c *an.Ctx, rule string) {
+	n := 0
+	for _, fn := range c.Prog.FuncsIn("pkg/resource") {
+		an.Instrs(fn, func(in ssa.Instruction) {
+			st, ok := in.(*ssa.Store)
+			if !ok {
+				return
+			}
+			fa, ok := st.Addr.(*ssa.FieldAddr)
+			if !ok || !strings.HasSuffix(an.NamedTypeName(fa.X.Type()), "/pkg/resource.item") {
+				return
+			}
+			n++
+			_, _, f, _ := an.FieldOf(fa)
+			cons := an.FuncName(fn) + "|store item." + f
+			fresh := false
+			if al, isAlloc := fa.X.(*ssa.Alloc); isAlloc && al.Parent() == fn {
+				fresh = true
+			}
+			c.SawFunc(an.FuncName(fn))
+			c.Check(fresh, rule, cons, st.Pos(), "written while constructing a fresh item",
+				"a stored *item is modified in place: Delete's pointer-identity re-check no longer notices the update (it removes a version its precondition did not see) and snapshots already taken change")
+		})
+	}
+	if n == 0 {
+		c.Unk(rule, "pkg/resource.item|stores", 0, "no construction of resource.item found")
 	}
 }
 
